@@ -349,6 +349,11 @@ def World.newToken (w : World) (username accessToken clientToken : JVal) : World
   { profiles := w.profiles ++ [⟨.null, .null⟩]
     tokens := w.tokens ++ [⟨username, accessToken, clientToken, w.profiles.length⟩] }
 
+/-- A program's tokens: created one after the other by the constructor `mk` (`World.newToken` for
+the real `__init__`) from `(username, access_token, client_token)`. -/
+def build (mk : World → JVal → JVal → JVal → World) (inits : List (JVal × JVal × JVal)) : World :=
+  inits.foldl (fun w x => mk w x.1 x.2.1 x.2.2) World.empty
+
 /-- What the methods of token `i` see. -/
 def World.view (w : World) (i : Nat) : Option Token :=
   match w.tokens[i]? with
@@ -430,5 +435,38 @@ def runTok (t : Token) : List (Op × Resp) → Token × List (Outcome × Option 
     let s := run op (fun _ => rsp) t
     let r := runTok s.1 rest
     (r.1, (s.2.1, s.2.2) :: r.2)
+
+/-! ## comparison with observations of the real code (`harness/gen/c19seq.py`) -/
+
+/-- An outcome as the harness can observe it: the `YggdrasilError` without its message structure … -/
+def Outcome.eraseMsg : Outcome → Outcome
+  | .yggdrasil _ st e m c => .yggdrasil none st e m c
+  | o => o
+
+/-- … and the text `exception.args[0]` (`none`: `args[0] is None`, or not a `YggdrasilError`). -/
+def Outcome.argsText (R : JVal → String) : Outcome → Option String
+  | .yggdrasil (some msg) _ _ _ _ => some (msg.text R)
+  | _ => none
+
+/-- One observed program run: the constructor arguments of the tokens, the calls with the responses
+served, and what was seen — per call `(outcome, args text, request as prepared by requests)` or
+`none` for a skipped call — and the five attributes of every token at the end. -/
+structure LiveRun where
+  inits : List (JVal × JVal × JVal)
+  steps : List (Call × Resp)
+  seen : List (Option (Outcome × Option String × Option Request))
+  final : List Token
+deriving Repr
+
+/-- The model's prediction for a run, in the same form.  (No row of the table has a list or an
+object as `error` / `errorMessage`, so the `repr` parameter of `Msg.text` is immaterial.) -/
+def LiveRun.predicted (r : LiveRun) :
+    List (Option (Outcome × Option String × Option Request)) × List (Option Token) :=
+  let res := runSeq (build World.newToken r.inits) r.steps
+  (res.2.map (fun o => o.map (fun p => (p.1.eraseMsg, p.1.argsText (fun _ => ""), p.2))),
+   (List.range r.inits.length).map res.1.view)
+
+def LiveRun.check (r : LiveRun) : Bool :=
+  decide (r.predicted = (r.seen, r.final.map some))
 
 end PyCraft.AuthSeq
